@@ -87,6 +87,30 @@ fn shallow(j: &J) -> J {
     j.clone()
 }
 
+/// a strictly sequential history: before a replica edits it is brought up to date with all others
+fn calm_run(w: &mut World, rng: &mut Rng, rounds: usize) {
+    let n = w.docs.len();
+    for _ in 0..rounds {
+        let r = rng.below(n);
+        for o in 0..n {
+            if o != r {
+                w.merge(r, o);
+            }
+        }
+        for _ in 0..rng.range(1, 4) {
+            w.edit(r, rng);
+        }
+        w.commit(r);
+    }
+    for r in 0..n {
+        w.commit(r);
+    }
+    for o in 1..n {
+        w.merge(0, o);
+    }
+    w.collect();
+}
+
 impl Check for C08 {
     fn id(&self) -> &'static str {
         "C08"
@@ -98,17 +122,28 @@ impl Check for C08 {
         "case = the merged document of a seeded multi-replica history; from up to 5 (8) head sets of that history (always including the empty heads and the current heads, plus heads of concurrent branches) every ordered pair (H1, H2) is diffed. An independent view (VIEW: own tree with conflict flags, counters, text in encoding units, marks) is built from the OBS snapshot at H1, the patches of AutoCommit::diff(H1,H2) — and, for one pair per case, of Automerge::diff, diff_obj recursive and diff_obj non-recursive on a random object — are applied to it (paths are resolved against the view, so a wrong path/index is a refutation), and the result must equal the view built from the snapshot at H2. Non-trivial = the two states differ in a conflict flag, a counter, a deletion or text; distinct by (history, H1, H2).".into()
     }
     fn required_counters(&self) -> Vec<&'static str> {
-        vec!["pairs_diffed", "backward_pairs", "pairs_differing_in_conflict_flag", "pairs_differing_in_counter", "pairs_differing_in_text", "diff_obj_recursive", "diff_obj_shallow", "patches_applied"]
+        vec!["calm_cases", "pairs_diffed", "backward_pairs", "pairs_differing_in_conflict_flag", "pairs_differing_in_counter", "pairs_differing_in_text", "diff_obj_recursive", "diff_obj_shallow", "patches_applied"]
     }
-    fn run_case(&self, cx: &mut Ctx, _case: u64, rng: &mut Rng) {
+    fn run_case(&self, cx: &mut Ctx, case: u64, rng: &mut Rng) {
         let enc = enc_for(rng);
         let n = rng.range(2, 3);
+        // every third case is "calm": a strictly sequential history (each edit is made on top of
+        // everything that exists, remote contributions included), so no register is ever conflicted
+        // and no counter is ever hidden. Its signatures carry the prefix `calm|`.
+        let calm = case % 3 == 2;
+        let pre = if calm { "calm|" } else { "" };
         let mut w = World::new(rng, n, enc, Profile::contention());
         w.verbose = cx.verbose;
         let small = std::env::var("VERIF_SMALL").ok().and_then(|s| s.parse::<usize>().ok());
-        match small {
-            Some(k) => w.run(rng, rng.clone().range(2, k)),
-            None => w.run(rng, rng.clone().range(8, cx.tier.pick(50, 140))),
+        if calm {
+            cx.count("calm_cases");
+            let rounds = rng.range(3, cx.tier.pick(14, 40));
+            calm_run(&mut w, rng, rounds);
+        } else {
+            match small {
+                Some(k) => w.run(rng, rng.clone().range(2, k)),
+                None => w.run(rng, rng.clone().range(8, cx.tier.pick(50, 140))),
+            }
         }
         let log = w.log.clone();
         let all = w.ledger.clone();
@@ -152,12 +187,12 @@ impl Check for C08 {
                 let exp = want.to_json(enc);
                 let feat = format!("blocks={}", has_blocks(&exp) || has_blocks(&VNode::from_snapshot(&snap1).to_json(enc)));
                 if let Err(e) = apply_all(&mut view, &patches, enc) {
-                    cx.violation(&format!("patch-not-applicable|{}|{feat}", na_class(&e)), format!("diff(H1,H2): {e}"), detail(String::new()));
+                    cx.violation(&format!("{pre}patch-not-applicable|{}|{feat}", na_class(&e)), format!("diff(H1,H2): {e}"), detail(String::new()));
                     return;
                 }
                 let got = view.to_json(enc);
                 if let Some(d) = first_diff(&exp, &got) {
-                    cx.violation(&format!("diff-does-not-reach-target|{}|{feat}", class_of(&d)), format!("state at H2 (left) vs state at H1 + diff(H1,H2) (right) {d}"), detail(d.clone()));
+                    cx.violation(&format!("{pre}diff-does-not-reach-target|{}|{feat}", class_of(&d)), format!("state at H2 (left) vs state at H1 + diff(H1,H2) (right) {d}"), detail(d.clone()));
                     return;
                 }
                 // what kind of difference did this pair exercise?
@@ -182,11 +217,11 @@ impl Check for C08 {
                     let p2 = am.diff(h1, h2);
                     let mut v2 = VNode::from_snapshot(&snap1);
                     if let Err(e) = apply_all(&mut v2, &p2, enc) {
-                        cx.violation("patch-not-applicable|Automerge::diff", format!("Automerge::diff(H1,H2): {e}"), detail(String::new()));
+                        cx.violation(&format!("{pre}patch-not-applicable|Automerge::diff"), format!("Automerge::diff(H1,H2): {e}"), detail(String::new()));
                         return;
                     }
                     if let Some(d) = first_diff(&exp, &v2.to_json(enc)) {
-                        cx.violation(&format!("diff-does-not-reach-target|Automerge::diff|{}", class_of(&d)), format!("state at H2 (left) vs state at H1 + Automerge::diff (right) {d}"), detail(d.clone()));
+                        cx.violation(&format!("{pre}diff-does-not-reach-target|Automerge::diff|{}", class_of(&d)), format!("state at H2 (left) vs state at H1 + Automerge::diff (right) {d}"), detail(d.clone()));
                         return;
                     }
                     // diff_obj on an object that exists in both states
@@ -204,7 +239,7 @@ impl Check for C08 {
                             // patches carry paths from the root: apply to the full view, compare the subtree
                             let mut full = VNode::from_snapshot(&snap1);
                             if let Err(e) = apply_all(&mut full, &ps, enc) {
-                                cx.violation(&format!("patch-not-applicable|diff_obj|{}|recursive={recursive}", na_class(&e)), format!("diff_obj({}, H1, H2, {recursive}): {e}", exid_str(&oid)), detail(String::new()));
+                                cx.violation(&format!("{pre}patch-not-applicable|diff_obj|{}|recursive={recursive}", na_class(&e)), format!("diff_obj({}, H1, H2, {recursive}): {e}", exid_str(&oid)), detail(String::new()));
                                 return;
                             }
                             let _ = sub1;
@@ -213,7 +248,7 @@ impl Check for C08 {
                             let (gs, ws) = if recursive { (got_sub.unwrap_or(J::Null), want_sub) } else { (shallow(&got_sub.unwrap_or(J::Null)), shallow(&want_sub)) };
                             if let Some(d) = first_diff(&ws, &gs) {
                                 // in the non-recursive case a child replaced by a new object is not filled in: only registers of the object itself are judged
-                                cx.violation(&format!("diff_obj-does-not-reach-target|recursive={recursive}|{}", class_of(&d)), format!("object {} at H2 (left) vs at H1 + diff_obj(.., {recursive}) (right) {d}", exid_str(&oid)), detail(d.clone()));
+                                cx.violation(&format!("{pre}diff_obj-does-not-reach-target|recursive={recursive}|{}", class_of(&d)), format!("object {} at H2 (left) vs at H1 + diff_obj(.., {recursive}) (right) {d}", exid_str(&oid)), detail(d.clone()));
                                 return;
                             }
                         }
@@ -240,6 +275,10 @@ fn find_node<'a>(v: &'a VNode, id: &str) -> Option<&'a VNode> {
 // ---------------------------------------------------------------------------
 
 fn cmp_view(cx: &mut Ctx, path: &str, view: &VNode, d: &AutoCommit, enc: TextEncoding, patches: &[Patch], log: &[String]) -> bool {
+    cmp_view_pre(cx, "", path, view, d, enc, patches, log)
+}
+
+fn cmp_view_pre(cx: &mut Ctx, pre: &str, path: &str, view: &VNode, d: &AutoCommit, enc: TextEncoding, patches: &[Patch], log: &[String]) -> bool {
     cx.count("view_comparisons");
     cx.count(&format!("path_{path}"));
     let o = observe_opts(d, None, false);
@@ -250,7 +289,7 @@ fn cmp_view(cx: &mut Ctx, path: &str, view: &VNode, d: &AutoCommit, enc: TextEnc
     let want = VNode::from_snapshot(&o.snap).to_json(enc);
     let got = view.to_json(enc);
     if let Some(diff) = first_diff(&want, &got) {
-        cx.violation(&format!("view-differs|{path}|{}|blocks={}", class_of(&diff), has_blocks(&want)), format!("after {path}: document (left) vs view maintained from patches (right) {diff}"), json!({"encoding": enc_name(enc), "patch_kinds": patch_kinds(patches), "patches": patches.iter().take(12).map(|p| format!("{} {:?} {:?}", exid_str(&p.obj), p.path.iter().map(|x| format!("{:?}", x.1)).collect::<Vec<_>>(), p.action)).collect::<Vec<_>>(), "log": tail(log, 25)}));
+        cx.violation(&format!("{pre}view-differs|{path}|{}|blocks={}", class_of(&diff), has_blocks(&want)), format!("after {path}: document (left) vs view maintained from patches (right) {diff}"), json!({"encoding": enc_name(enc), "patch_kinds": patch_kinds(patches), "patches": patches.iter().take(12).map(|p| format!("{} {:?} {:?}", exid_str(&p.obj), p.path.iter().map(|x| format!("{:?}", x.1)).collect::<Vec<_>>(), p.action)).collect::<Vec<_>>(), "log": tail(log, 25)}));
         return false;
     }
     true
@@ -267,7 +306,7 @@ impl Check for C09 {
         "case = a patch-logged document (AutoCommit with its diff cursor / diff_incremental in even cases, an Automerge with explicit PatchLog + make_patches in odd cases) is mutated by a seeded sequence of every mutating path: local edits (open transaction and commit), rollback, apply_changes (single, batch, out of order so that the queue releases later), merge, load_incremental, a received sync message, isolate/integrate, and load_with_options(patch_log) for the initial state; the patches emitted by each step are applied to an independent VIEW and the view must equal the document's OBS-derived view after every step (values/structure, conflict flags, counters, text, marks are reported under separate signatures). Non-trivial = a remote path (apply/merge/sync/load_incremental) touched a conflicted register or text; distinct by (path kind, patch-kind multiset).".into()
     }
     fn required_counters(&self) -> Vec<&'static str> {
-        vec!["view_comparisons", "path_local_commit", "path_rollback", "path_apply_changes", "path_merge", "path_load_incremental", "path_sync", "path_isolate_integrate", "path_load_with_patch_log", "path_explicit_patchlog_apply", "path_explicit_patchlog_tx", "patches_applied"]
+        vec!["calm_cases", "view_comparisons", "path_local_commit", "path_rollback", "path_apply_changes", "path_merge", "path_load_incremental", "path_sync", "path_isolate_integrate", "path_load_with_patch_log", "path_explicit_patchlog_apply", "path_explicit_patchlog_tx", "patches_applied"]
     }
     fn run_case(&self, cx: &mut Ctx, case: u64, rng: &mut Rng) {
         let enc = enc_for(rng);
@@ -275,13 +314,34 @@ impl Check for C09 {
         let mut w = World::new(rng, n, enc, Profile::contention());
         w.verbose = cx.verbose;
         let small = std::env::var("VERIF_SMALL").ok().and_then(|s| s.parse::<usize>().ok());
-        match small {
-            Some(k) => w.run(rng, rng.clone().range(1, k)),
-            None => w.run(rng, rng.clone().range(4, cx.tier.pick(25, 60))),
+        // every third of the AutoCommit cases is "calm": the prior history is strictly sequential and
+        // the other replica is brought up to date before it edits, so remote changes are never
+        // concurrent with anything (no conflicted registers, no hidden counters, no isolate at older
+        // heads); signatures carry the prefix `calm|`
+        let calm = case % 2 == 0 && (case / 2) % 3 == 2;
+        let pre = if calm { "calm|" } else { "" };
+        if calm {
+            cx.count("calm_cases");
+            let rounds = rng.range(2, cx.tier.pick(10, 25));
+            calm_run(&mut w, rng, rounds);
+        } else {
+            match small {
+                Some(k) => w.run(rng, rng.clone().range(1, k)),
+                None => w.run(rng, rng.clone().range(4, cx.tier.pick(25, 60))),
+            }
         }
         let log0 = w.log.clone();
         if case % 2 == 1 {
             return explicit_patchlog_case(cx, rng, enc, &mut w, &log0);
+        }
+        macro_rules! sync_other {
+            ($d:expr, $other:expr) => {
+                if calm {
+                    $d.commit();
+                    let mut dc = $d.clone();
+                    let _ = w.docs[$other].merge(&mut dc);
+                }
+            };
         }
         // AutoCommit with diff cursor
         let mut d = w.docs[0].clone();
@@ -317,6 +377,7 @@ impl Check for C09 {
                     name = "apply_changes";
                     // other replica makes changes; deliver them (sometimes out of order)
                     let other = 1 + rng.below(n - 1);
+                    sync_other!(d, other);
                     for _ in 0..rng.range(1, 6) {
                         w.edit(other, rng);
                     }
@@ -336,6 +397,7 @@ impl Check for C09 {
                 4 => {
                     name = "merge";
                     let other = 1 + rng.below(n - 1);
+                    sync_other!(d, other);
                     for _ in 0..rng.range(1, 6) {
                         w.edit(other, rng);
                     }
@@ -345,6 +407,7 @@ impl Check for C09 {
                 5 => {
                     name = "load_incremental";
                     let other = 1 + rng.below(n - 1);
+                    sync_other!(d, other);
                     for _ in 0..rng.range(1, 6) {
                         w.edit(other, rng);
                     }
@@ -356,6 +419,7 @@ impl Check for C09 {
                 6 => {
                     name = "sync";
                     let other = 1 + rng.below(n - 1);
+                    sync_other!(d, other);
                     for _ in 0..rng.range(1, 4) {
                         w.edit(other, rng);
                     }
@@ -374,7 +438,7 @@ impl Check for C09 {
                         }
                     }
                 }
-                7 => {
+                7 if !calm => {
                     name = "isolate_integrate";
                     let known: BTreeSet<ChangeHash> = d.get_changes(&[]).iter().map(|c| c.hash()).collect();
                     let cands: Vec<Vec<ChangeHash>> = w.head_sets.iter().filter(|h| !h.is_empty() && h.iter().all(|x| known.contains(x))).cloned().collect();
@@ -386,10 +450,10 @@ impl Check for C09 {
                     let ps = d.diff_incremental();
                     cx.add("patches_applied", ps.len() as u64);
                     if let Err(e) = apply_all(&mut view, &ps, enc) {
-                        cx.violation(&format!("patch-not-applicable|isolate|{}", na_class(&e)), format!("patches emitted by isolate(): {e}"), json!({"log": tail(&w.log, 20)}));
+                        cx.violation(&format!("{pre}patch-not-applicable|isolate|{}", na_class(&e)), format!("patches emitted by isolate(): {e}"), json!({"log": tail(&w.log, 20)}));
                         return;
                     }
-                    if !cmp_view(cx, "isolate", &view, &d, enc, &ps, &w.log) {
+                    if !cmp_view_pre(cx, pre, "isolate", &view, &d, enc, &ps, &w.log) {
                         return;
                     }
                     for _ in 0..rng.range(1, 3) {
@@ -399,10 +463,10 @@ impl Check for C09 {
                     let ps = d.diff_incremental();
                     cx.add("patches_applied", ps.len() as u64);
                     if let Err(e) = apply_all(&mut view, &ps, enc) {
-                        cx.violation(&format!("patch-not-applicable|isolated_edit|{}", na_class(&e)), format!("patches of an isolated edit: {e}"), json!({"log": tail(&w.log, 20)}));
+                        cx.violation(&format!("{pre}patch-not-applicable|isolated_edit|{}", na_class(&e)), format!("patches of an isolated edit: {e}"), json!({"log": tail(&w.log, 20)}));
                         return;
                     }
-                    if !cmp_view(cx, "isolated_edit", &view, &d, enc, &ps, &w.log) {
+                    if !cmp_view_pre(cx, pre, "isolated_edit", &view, &d, enc, &ps, &w.log) {
                         return;
                     }
                     d.integrate();
@@ -421,10 +485,10 @@ impl Check for C09 {
             cx.add("patches_applied", ps.len() as u64);
             sig ^= fnv(format!("{name}{}", patch_kinds(&ps)).as_bytes());
             if let Err(e) = apply_all(&mut view, &ps, enc) {
-                cx.violation(&format!("patch-not-applicable|{name}|{}", na_class(&e)), format!("patches emitted by {name}: {e}"), json!({"encoding": enc_name(enc), "patch_kinds": patch_kinds(&ps), "log": tail(&w.log, 25)}));
+                cx.violation(&format!("{pre}patch-not-applicable|{name}|{}", na_class(&e)), format!("patches emitted by {name}: {e}"), json!({"encoding": enc_name(enc), "patch_kinds": patch_kinds(&ps), "log": tail(&w.log, 25)}));
                 return;
             }
-            if !cmp_view(cx, name, &view, &d, enc, &ps, &w.log) {
+            if !cmp_view_pre(cx, pre, name, &view, &d, enc, &ps, &w.log) {
                 return;
             }
             if matches!(name, "apply_changes" | "merge" | "load_incremental" | "sync") && !ps.is_empty() {
